@@ -518,6 +518,18 @@ func init() {
 			}
 		}
 	}
+	// two publishers of the same level compete for the last free slot
+	register("window21x", func() *Scenario {
+		s := mkWindow(2, 1, 0)()
+		s.Actors = []ActorSpec{
+			{Name: "reader", Reader: &ReaderSpec{Backoff: true}},
+			{Name: "A", Ops: []Op{{Kind: "pub1", Topic: "w/1", Msg: []byte("W1-aaaa")}, {Kind: "pub1", Topic: "w/2", Msg: []byte("W2-aaaa")}}},
+			{Name: "C", Ops: []Op{{Kind: "pub1", Topic: "w/3", Msg: []byte("W3-cccc")}, {Kind: "pub1", Topic: "w/4", Msg: []byte("W4-cccc")}}},
+		}
+		s.Gens = nil
+		s.Faults = Faults{NoResponse: true}
+		return s
+	})
 	register("window21", mkWindow(2, 1, 0))
 	register("window21wrap", mkWindow(2, 1, 0x3fff))
 	register("window10", mkWindow(1, 0, 0x7ffe))
